@@ -103,7 +103,7 @@ func runC12(b *mon.B) {
 		return
 	}
 	defer ref.Close()
-	ref.Net.KeepLog = false
+	ref.Net.SetKeepLog(false)
 	if b.Index%2 == 1 {
 		ref.Sink.UseStdLogger()
 	}
